@@ -122,6 +122,8 @@ func (runtime *Runtime) RegisterController(ctrl controller.Controller) error {
 		},
 	)
 	if err != nil {
+		runtime.depDB.RollbackController(name)
+
 		return fmt.Errorf("error initializing controller %q adapter: %w", name, err)
 	}
 
@@ -153,6 +155,8 @@ func (runtime *Runtime) RegisterQController(ctrl controller.QController) error {
 		},
 	)
 	if err != nil {
+		runtime.depDB.RollbackController(name)
+
 		return fmt.Errorf("error initializing controller %q adapter: %w", name, err)
 	}
 
